@@ -1,4 +1,6 @@
 """C06 — game lifecycle: turns, balls and lifecycle events are well-formed."""
+import os
+
 from vlib import Suite, zlit, coqlist, blit
 
 ID = "C06"
@@ -16,10 +18,16 @@ RULE = ("suite game: one case = one or two games on a real MPF machine (rig.Fake
         "same Game mode object when the first has ended (playfield left as it is) and feed it the remaining inputs. "
         "Profiles bias towards: adds in every gap, extra balls, multiball arithmetic, early ends, plain games, balls ended by request "
         "that drain at every later suspension point (latedrain), negative / left-over playfield counts (strays), joins inside the "
-        "last player's turn-ending events with balls_per_game 1 (lastjoin). "
-        "suite devices (oracle-only supplement): real trough + plunger + playfield on the smart_virtual platform with the real ball "
-        "controller; a script attaches physical drains, stray balls, playfield switch hits, end_ball requests and queue holds to the "
-        "lifecycle events, balls in play drain after a while. "
+        "last player's turn-ending events with balls_per_game 1 (lastjoin), two further game modes gm0/gm1 that start and stop during the "
+        "game, the stop of gm0 held by a handler of mode_gm0_stopping across turn ends and the game end (modes), the game mode stopped "
+        "from outside (modes.game.stop(), what service_mode_entered does) at a generated quiescent suspension point: idle waits and every "
+        "batch of held lifecycle queue events; afterwards every held handler finishes and lifecycle events of the stopped game are "
+        "recorded (stopper; 76 of 600 quick games are stopped, in all six queue events). "
+        "suite devices: real trough + plunger + playfield on the smart_virtual platform with the real ball "
+        "controller and the real tilt mode; a script attaches physical drains, stray balls, playfield switch hits, end_ball requests, "
+        "tilt / slam tilt / tilt warning switch hits and queue holds to the lifecycle events, to held queue events, to live balls and to "
+        "the time the tilt mode holds ball_ending; balls in play drain after a while.  Game-level clauses: oracle only; the tilt mode's "
+        "request functions: request-level correspondence with Tilt.v. "
         "non-trivial = the game got at least one operation inside a lifecycle event (not only idle drains); distinct by case hash")
 TRUSTED_BASE = [
     "Coq 8.16.1 kernel (coqc), vm_compute for refutation witnesses and for evaluating the model in the correspondence run; no native_compute",
@@ -32,7 +40,12 @@ TRUSTED_BASE = [
     "the MPF event manager (depth-first event queue, callbacks after the queue is empty, queue events as tasks) and asyncio are used as they "
     "are; their effect on the game is summarised in the model as 'a batch takes effect in order, player-add chains complete at the end of the batch'",
     "mpf.tests.MpfFakeGameTestCase for suite game (no ball devices: playfield.add_ball stubbed to count available_balls, num_balls_known set, "
-    "drains posted as ball_drain relay events); suite devices uses real ball devices but is checked by the oracle only",
+    "drains posted as ball_drain relay events); suite devices uses real ball devices: its game-level clauses are checked by the oracle only",
+    "hand-written coq/C06/Outer.v (stop procedure of the game mode: Mode.stop / Game._stop_game_modes / AsyncMode._stopped / Game.mode_stop, "
+    "and one further game mode with a stop that a handler can hold) layered over the unchanged coroutine model; part of the whole-trace "
+    "correspondence of suite game (run = orun)",
+    "hand-written coq/C06/Tilt.v (Tilt.tilt / slam_tilt / tilt_warning as functions on the game object's fields) tied by a request-level "
+    "correspondence in suite devices: every switch hit of the real tilt mode with the state before and right after it",
 ]
 ASSUMPTIONS = [
     "no handler of player_added/player_will_add acts on the game; a player_adding handler, when present, holds every new player's "
@@ -40,8 +53,16 @@ ASSUMPTIONS = [
     "queue event): the interleaving of an unheld player_adding queue task with the next lifecycle event belongs to C01/C02",
     "operations reach the game only at lifecycle events (handlers), inside held queue events, or while the game idles (end of ball, first "
     "player, empty playfield); the silent awaits of _start_ball (single/multi_player_ball_started, ball_start_target) get no operations",
-    "tilt/bonus/high-score modes are not loaded; slam tilt is the effect of Tilt.slam_tilt on the game object (slam_tilted=True, end_ball unless ending); "
-    "Mode.stop() of the game mode (task cancellation: no game_ended) is not modelled and not generated",
+    "bonus/high-score modes are not loaded; in suite game slam tilt is the effect of Tilt.slam_tilt on a game object that is not tilted "
+    "(slam_tilted=True, end_ball unless ending; Coq: slam_request_is_core_op); the real tilt mode runs in suite devices, where its hold of "
+    "ball_ending (balls to collect, settle time) is a handler delay that is not modelled",
+    "the external stop of the game mode, the release of a held player_adding queue and the release of gm0's held stop are issued only while "
+    "the machine is quiescent (idle batch / batch inside a held lifecycle queue event): inside a handler their completion races with the "
+    "resumption of the coroutine (C01/C02); no game mode start / stop event after the first generated stop request; the handler that holds "
+    "gm0's stop lets go at the latest at the next ball_ending; after an external stop attract is restarted by posting game_ended (as the "
+    "service mode's exit does)",
+    "/repo carries fixes/C06-ball-starting-after-game-stop.patch (without it the check reports machine-error: AttributeError in "
+    "ModeController._ball_starting after a stop inside a held ball_starting)",
     "balls_per_game >= 1, max_players >= 1, num_balls_known >= 0; one playfield; wait_for_empty_playfields_on_ball_start at its default (true)",
     "new_game_starts_clean assumes that no player_adding queue is still held open when the game ends (second games are generated only "
     "for cases without such a handler)",
@@ -55,8 +76,20 @@ K = {n: i for i, n in enumerate(KINDS)}
 QUEUE = {1, 4, 7, 10, 13, 16}
 GWS, GSg, GSd, GWE, GEg, GEd, PTWS, PTSg, PTSd, PTWE, PTEg, PTEd, BWS, BSg, BSd, BWE, BEg, BEd = range(18)
 
+# operations that are only issued while the machine is quiescent (idle batch, batch inside a held lifecycle queue event): their
+# completion races with the resumption of the coroutine from the event being handled (event manager / asyncio: C01/C02)
+EV_EXCLUDED = ("release", "mrelease", "stop")
+
+# two further game modes (game modes have to stop at the ball end: the config validator refuses stop_on_ball_end: false for them).
+# gm0: a handler of mode_gm0_stopping (a goodbye show) can keep the queue of a stop that gm0's own stop event started; it lets go
+# at the latest when the next ball_ending is posted.  gm1: an ordinary game mode whose stop is never held.
+GAME_MODES = {
+    "gm0": {"mode": {"start_events": "verif_gm0_start", "stop_events": "verif_gm0_stop", "game_mode": True, "priority": 210}},
+    "gm1": {"mode": {"start_events": "verif_gm1_start", "stop_events": "verif_gm1_stop", "game_mode": True, "priority": 220}},
+}
+
 PROFILES = ["plain", "busy", "adds", "heldadds", "heldadds", "extras", "multiball", "enders", "mixed",
-            "latedrain", "strays", "lastjoin"]
+            "latedrain", "strays", "lastjoin", "modes", "modes", "stopper", "stopper"]
 
 
 # ------------------------------------------------------------------------------------------------
@@ -85,10 +118,28 @@ def gen_op(rng, prof):
     elif prof == "lastjoin":
         # joins inside the turn-ending events of the (so far) last player
         w = {"drain": 1, "addbip": 0, "endball": 1, "endgame": 0, "slam": 0, "addplayer": 7, "award": 0.3, "pfadd": 0.1}
+    elif prof == "modes":
+        # further game modes start and stop during the game; the stop of gm0 is held by a handler across ball ends and the game end
+        w = {"drain": 1, "addbip": 0.2, "endball": 1, "endgame": 0.5, "slam": 0.2, "addplayer": 1, "award": 0.5,
+             "mstart": 4, "mstop": 3, "mrelease": 1.2}
+    elif prof == "stopper":
+        w = {"drain": 1, "addbip": 0.3, "endball": 1, "endgame": 0.1, "slam": 0.1, "addplayer": 1.5, "award": 1,
+             "mstart": 1, "mstop": 0.7, "mrelease": 0.5}
     w.setdefault("release", 0.3)
     w.setdefault("pfadd", 0.25)
+    w.setdefault("mstart", 0.15)
+    w.setdefault("mstop", 0.1)
+    w.setdefault("mrelease", 0.1)
     ks = list(w)
     k = rng.choices(ks, [w[x] for x in ks])[0]
+    if k == "mstart":
+        return ["mstart", rng.choice([0, 0, 0, 1])]
+    if k == "mstop":
+        if rng.random() < 0.25:
+            return ["mstop", 1, False]
+        return ["mstop", 0, rng.random() < 0.6]
+    if k == "mrelease":
+        return ["mrelease"]
     if k == "drain":
         return ["drain", rng.choice([0, 1, 1, 1, 2, 3])]
     if k == "addbip":
@@ -111,8 +162,9 @@ def gen_batch(rng, prof, p_any, maxn=3, ev=False):
     if ev:
         # a player_adding queue is only released while the machine is quiescent (idle batch / batch inside a held
         # lifecycle queue event): inside a handler the relative order of the queue task and the next lifecycle event
-        # is a matter of the event manager (C01/C02), not of the game
-        b = [o for o in b if o[0] != "release"]
+        # is a matter of the event manager (C01/C02), not of the game.  The same holds for the release of a held
+        # mode_gm0_stopping queue (it may complete the stop of the game mode).
+        b = [o for o in b if o[0] not in EV_EXCLUDED]
     return b
 
 
@@ -152,22 +204,46 @@ def gen_input(rng, prof, dens):
 
 def gen_game(rng, tier, i):
     prof = rng.choice(PROFILES)
+    if os.environ.get("VERIF_C06_PROFILES"):
+        # development aid: restrict the generator to some profiles (never set by ./check itself)
+        prof = rng.choice(os.environ["VERIF_C06_PROFILES"].split(","))
     dens = {"plain": 0.04, "busy": 0.35, "adds": 0.25, "heldadds": rng.choice([0.08, 0.2, 0.4]), "extras": 0.12, "multiball": 0.15, "enders": 0.06,
             "mixed": rng.choice([0.02, 0.1, 0.5]), "latedrain": rng.choice([0.15, 0.3, 0.5]), "strays": rng.choice([0.1, 0.3]),
-            "lastjoin": rng.choice([0.3, 0.6])}[prof]
+            "lastjoin": rng.choice([0.3, 0.6]), "modes": rng.choice([0.3, 0.5, 0.7]), "stopper": rng.choice([0.05, 0.2, 0.4])}[prof]
     if prof == "adds" and rng.random() < 0.5:
         dens = 0.6
     n = rng.choice([6, 15, 30, 60, 100, 160, 240])
     if tier == "thorough" and rng.random() < 0.2:
         n *= 2
     ins = [gen_input(rng, prof, dens) for _ in range(n)]
+    if prof == "stopper" or (prof == "modes" and rng.random() < 0.3):
+        # the game mode is stopped from outside (service mode entered, machine code calling modes.game.stop()) at a generated
+        # suspension point: inside a handler of a lifecycle event, while a handler holds a lifecycle queue event, or while the
+        # game idles.  The stop request is the only operation of its batch; after the first one no further game mode
+        # starts / stop events are generated (a game mode starting while the game mode stops is C07 material).
+        k = rng.randrange(0, max(1, min(n, rng.choice([8, 20, 40, 80, n]))))
+        first = True
+        for j in range(k, n):
+            inp = ins[j]
+            for f in ("ev", "idle"):
+                inp[f] = [o for o in inp[f] if o[0] not in ("mstart", "mstop")]
+            inp["holds"] = [[o for o in h if o[0] not in ("mstart", "mstop")] for h in inp["holds"]]
+            if first or rng.random() < 0.4:
+                first = False
+                loc = rng.choice(["hold", "hold", "idle", "all"])
+                if loc in ("hold", "all"):
+                    hs = inp["holds"] or [[]]
+                    hs[rng.randrange(len(hs))] = [["stop"]]
+                    inp["holds"] = hs
+                if loc in ("idle", "all"):
+                    inp["idle"] = [["stop"]]
     if rng.random() < 0.75:
         # a calm tail so that most games run to their end
         for _ in range(rng.choice([40, 120, 300])):
             ins.append({"ev": [], "holds": [], "idle": [["drain", rng.choice([1, 1, 1, 2])]]})
     case = {"bpg": rng.choice([1, 1, 2, 2, 3, 3, 4]), "maxp": rng.choice([1, 2, 2, 3, 4, 4, 5]),
             "nbk": rng.choice([0, 1, 2, 3, 3, 4]), "own": rng.random() < 0.93,
-            "holdadds": prof == "heldadds" or rng.random() < 0.1, "ins": ins, "profile": prof}
+            "holdadds": prof == "heldadds" or (prof not in ("modes", "stopper") and rng.random() < 0.1), "ins": ins, "profile": prof}
     if prof == "lastjoin":
         case["bpg"] = rng.choice([1, 1, 1, 2])
         case["maxp"] = rng.choice([2, 3, 4, 5])
@@ -184,7 +260,7 @@ _R = {}
 
 def _new_rig():
     from rig import FakeGameRig
-    r = FakeGameRig({"game": {"balls_per_game": 3, "max_players": 4}})
+    r = FakeGameRig({"game": {"balls_per_game": 3, "max_players": 4}, "modes": ["gm0", "gm1"]}, modes=GAME_MODES)
     r.start()
     m = r.machine
 
@@ -205,8 +281,21 @@ def _new_rig():
                 if kind == GSd:
                     c["restart_started"] = True
                 return
+            if c["phase"] == "linger":
+                # a lifecycle event although the game mode has been stopped and machine.game is cleared
+                c["log"].append({"t": "zombie", "k": kind})
+                return
             if c["phase"] != "run" or c["stop"]:
                 return
+            if kind == GEd:
+                c["ged"] = True
+            if kind == BEg and c["mheld"] is not None and not (c["pos"] < len(c["ins"]) and c["ins"][c["pos"]]["holds"]):
+                # the handler that holds gm0's stop lets go when the ball ends: the mode controller (a later handler of
+                # ball_ending) is about to wait for gm0.  (When this handler holds ball_ending itself, the driver releases
+                # gm0's stop together with that hold.)
+                q = c["mheld"]
+                c["mheld"] = None
+                q.clear()
             pl = g.player if g else None
             rec = {"t": "ev", "k": kind, "p": pl.number if pl else 0, "b": pl.ball if pl else 0,
                    "x": bool(kwargs.get("is_extra_ball", False)), "bip": g.balls_in_play if g else -99,
@@ -223,10 +312,10 @@ def _new_rig():
                 return
             inp = c["ins"][c["pos"]]
             c["pos"] += 1
-            post_batch([o for o in inp["ev"] if o[0] != "release"])
+            post_batch([o for o in inp["ev"] if o[0] not in EV_EXCLUDED])
             if kind in QUEUE and inp["holds"]:
                 kwargs["queue"].wait()
-                c["hold"] = [kwargs["queue"], list(inp["holds"])]
+                c["hold"] = [kwargs["queue"], list(inp["holds"]), kind]
         return h
 
     for i, name in enumerate(KINDS):
@@ -238,7 +327,8 @@ def _new_rig():
         if c is None or g is None:
             return
         c["log"].append({"t": "op", "op": op[0], "bip": g.balls_in_play, "ending": bool(g.ending),
-                         "pf": m.playfield.available_balls})
+                         "pf": m.playfield.available_balls,
+                         "gm0": [bool(m.modes["gm0"].active), bool(m.modes["gm0"].stopping), c["mhold"], c["mheld"] is not None]})
         k = op[0]
         code = 0
         if k == "drain":
@@ -275,6 +365,23 @@ def _new_rig():
         elif k == "release":
             if c["heldq"]:
                 c["heldq"].pop(-1 if op[1] else 0).clear()
+        elif k == "stop":
+            # the game mode is stopped from outside (what the stop event service_mode_entered / machine code does)
+            m.modes["game"].stop()
+        elif k == "mstart":
+            m.events.post("verif_gm%d_start" % op[1])
+        elif k == "mstop":
+            if op[1] == 0:
+                # the goodbye-show handler keeps the queue of the stop this event starts (if it starts one)
+                md = m.modes["gm0"]
+                if op[2] and md.active and not md.stopping:
+                    c["mhold"] = True
+            m.events.post("verif_gm%d_stop" % op[1])
+        elif k == "mrelease":
+            if c["mheld"] is not None:
+                q = c["mheld"]
+                c["mheld"] = None
+                q.clear()
         elif k == "award":
             if g.player:
                 g.player.extra_balls += 1
@@ -306,6 +413,17 @@ def _new_rig():
         queue.wait()
         c["heldq"].append(queue)
 
+    def gm0_stopping(queue, **kwargs):
+        # a handler of mode_gm0_stopping (a goodbye show, a slide): keeps the queue when the stop came with hold=True
+        c = ctx()
+        if c is None or c["phase"] not in ("run", "linger"):
+            return
+        if c["mhold"]:
+            c["mhold"] = False
+            queue.wait()
+            c["mheld"] = queue
+    m.events.add_handler("mode_gm0_stopping", gm0_stopping, priority=1000)
+
     r._player_adding = player_adding
     m.events.add_handler("verif_op", verif_op)
     m.events.add_handler("verif_after", verif_after)
@@ -334,11 +452,15 @@ def _finish_game(r):
     m = r.machine
     for _ in range(80):
         if m.game is None:
-            return True
+            break
         m.playfield.available_balls = 0     # a ball start waits for the balls to come home
         m.game.end_game()
         r.advance_time_and_run(1)
-    return m.game is None
+    if m.game is None and not m.modes["attract"].active:
+        # the last game was stopped from outside (no game_ended): bring attract back the way the service mode's exit does
+        m.events.post("game_ended")
+        r.advance_time_and_run(1)
+    return m.game is None and bool(m.modes["attract"].active)
 
 
 def run_game(case):
@@ -348,7 +470,7 @@ def run_game(case):
     r = _R["rig"]
     m = r.machine
     _R["ctx"] = None
-    if m.game is not None and not _finish_game(r):
+    if (m.game is not None or not m.modes["attract"].active) and not _finish_game(r):
         _drop_rig()
         _R["rig"] = r = _new_rig()
         m = r.machine
@@ -358,7 +480,8 @@ def run_game(case):
     m.playfield.balls = 0
     m.playfield.available_balls = 0
     c = {"phase": "run", "stop": False, "log": [], "evc": 0, "pos": 0, "ins": case["ins"], "hold": None,
-         "flags": [], "heldq": [], "own": bool(case["own"]), "restart_started": False, "gameno": 1, "lastfin": None}
+         "flags": [], "heldq": [], "own": bool(case["own"]), "restart_started": False, "gameno": 1, "lastfin": None,
+         "ged": False, "mhold": False, "mheld": None}
     _R["ctx"] = c
     m.events.remove_handler(r._player_adding)
     if case.get("holdadds"):
@@ -377,10 +500,15 @@ def run_game(case):
             r.advance_time_and_run(0.5)
             if c["stop"]:
                 break
-            if c["hold"] is not None:
-                q, rem = c["hold"]
+            if c["hold"] is not None and m.game is not None:
+                q, rem = c["hold"][0], c["hold"][1]
                 if rem:
                     r._post_batch(rem.pop(0))
+                elif c["hold"][2] == BEg and c["mheld"] is not None:
+                    # the handler that holds gm0's stop lets go before ball_ending goes on to the mode controller
+                    mq = c["mheld"]
+                    c["mheld"] = None
+                    mq.clear()
                 else:
                     c["hold"] = None
                     q.clear()
@@ -392,13 +520,32 @@ def run_game(case):
                     else:
                         out["err"] = "game-did-not-start"
                     break
-                # the coroutine returned and the mode stopped
-                fin = {"t": "fin", "game_none": True}
+                # the game mode has stopped: the coroutine returned (game_ended was posted) or it was stopped from outside
+                gm_active = [n for n in ("gm0", "gm1") if m.modes[n].active]
+                fin = {"t": "fin" if c["ged"] else "killed", "game_none": True, "gm_active": gm_active,
+                       "game_mode_active": bool(m.modes["game"].active)}
+                if not c["ged"]:
+                    # nothing of the dead game may go on: let every handler that still holds a lifecycle queue finish
+                    c["phase"] = "linger"
+                    if c["hold"] is not None:
+                        c["hold"][0].clear()
+                        c["hold"] = None
+                    for q in c["heldq"]:
+                        q.clear()
+                    c["heldq"] = []
+                    r.advance_time_and_run(3)
+                    c["phase"] = "between"
+                    # the game mode did not end by itself: attract is brought back the way the service mode does on exit
+                    if not m.modes["attract"].active:
+                        m.events.post("game_ended")
+                        r.advance_time_and_run(1)
+                    c["phase"] = "run"
                 if case.get("g2") and c["gameno"] == 1 and c["pos"] < len(c["ins"]):
                     # a second game on the same mode object, with its own configuration; the playfield stays as it is
                     g2 = case["g2"]
                     c["gameno"] = 2
                     c["evc"] = 0
+                    c["ged"] = False
                     c["own"] = bool(g2["own"])
                     c["flags"] = []
                     c["lastfin"] = fin
@@ -429,12 +576,21 @@ def run_game(case):
             if c["evc"] == evc and not c["stop"] and m.game is not None:
                 g = m.game
                 c["log"].append({"t": "idle", "bip": g.balls_in_play, "np": len(g.player_list), "ending": bool(g.ending),
-                                 "pf": m.playfield.available_balls, "held": len(c["heldq"])})
+                                 "pf": m.playfield.available_balls, "held": len(c["heldq"]), "ged": c["ged"],
+                                 "gm": [n for n in ("gm0", "gm1") if m.modes[n].active]})
     except Exception as e:   # an exception inside the machine is data, not a harness error
         out["err"] = "%s: %s" % (type(e).__name__, str(e)[:300])
     if r.exception() is not None and out["err"] is None:
         out["err"] = "machine-exception: %r" % (r.exception(),)
     c["phase"] = "cleanup"
+    if c["mheld"] is not None:
+        try:
+            c["mheld"].clear()
+            c["mheld"] = None
+            r.advance_time_and_run(1)
+        except Exception as e:   # noqa
+            if out["err"] is None:
+                out["err"] = "%s: %s" % (type(e).__name__, str(e)[:300])
     m.events.remove_handler(r._player_adding)
     out["consumed"] = c["pos"]
     clean = False
@@ -446,6 +602,10 @@ def run_game(case):
     _R["ctx"] = None
     if not clean:
         out["stuck_at_cleanup"] = out["err"] is None
+        _drop_rig()
+    elif any(e["t"] in ("killed", "zombie") for e in c["log"]):
+        # a game that was stopped from outside leaves cancelled tasks and half-run queue events behind: the next case of this
+        # worker gets a fresh machine (cases must not depend on their predecessor)
         _drop_rig()
     return out
 
@@ -472,6 +632,14 @@ def cop(op):
         return "ReleaseAdd %s" % blit(op[1])
     if k == "award":
         return "AwardExtra"
+    if k == "stop":
+        return "Aux StopGame"
+    if k == "mstart":
+        return "Aux MStart" if op[1] == 0 else "Aux Noise"
+    if k == "mstop":
+        return ("Aux (MStop %s)" % blit(op[2])) if op[1] == 0 else "Aux Noise"
+    if k == "mrelease":
+        return "Aux MRelease"
     raise ValueError(op)
 
 
@@ -495,6 +663,10 @@ def enc_log(log):
             rows.append([3, e["p"]])
         elif t == "fin":
             rows.append([4])
+        elif t == "killed":
+            rows.append([6])
+        elif t == "zombie":
+            rows.append([7, e["k"]])
     return rows
 
 
@@ -502,7 +674,7 @@ def coq_game(case, out):
     if out.get("err"):
         return None     # reported by the oracle (sig machine-error)
     def cins(lst):
-        return coqlist("mkin %s %s %s" % (cbatch([o for o in i["ev"] if o[0] != "release"]), coqlist(cbatch(h) for h in i["holds"]),
+        return coqlist("mkin %s %s %s" % (cbatch([o for o in i["ev"] if o[0] not in EV_EXCLUDED]), coqlist(cbatch(h) for h in i["holds"]),
                                           cbatch(i["idle"])) for i in lst)
 
     def ccfg(d):
@@ -519,7 +691,7 @@ def coq_game(case, out):
     return "(%s, %s)" % (gs, exp)
 
 
-HDR = "From C06 Require Import Model.\n"
+HDR = "From C06 Require Import Model Outer.\nDefinition run := orun.\n"
 
 
 # ------------------------------------------------------------------------------------------------
@@ -538,11 +710,15 @@ def oracle_game(case, out):
     segs, cur_seg = [], []
     for e in out["log"]:
         cur_seg.append(e)
-        if e["t"] == "fin":
+        if e["t"] in ("fin", "killed"):
             segs.append(cur_seg)
             cur_seg = []
     if cur_seg or not segs:
         segs.append(cur_seg)
+    if any(e["t"] == "zombie" for e in out["log"]):
+        z = [KINDS[e["k"]] for e in out["log"] if e["t"] == "zombie"]
+        fail("lifecycle-after-stop", "the game mode was stopped from outside and machine.game is cleared, but the stopped game goes on "
+                                     "posting lifecycle events once the handler that held its queue event has finished: %s" % z[:8])
     if len(segs) > 2 or (len(segs) == 2 and not case.get("g2")):
         fail("grammar", "events after the end of the game")
         segs = segs[:1]
@@ -680,6 +856,8 @@ def _oracle_one(case, out, bpg, log, last_game, fail0, prefix, device_rig=False)
                 fail("game-end-early", "game_will_end without an end request after turn %s; %s players, %s balls per game" %
                      (last, e["np"], bpg))
 
+    check_slam([("slam",) if (e["t"] == "op" and e["op"] == "slam") else ("ev", e["k"], e["x"])
+                for e in log if e["t"] == "ev" or (e["t"] == "op" and e["op"] == "slam")], fail)
     if device_rig:
         return      # the clauses below need the per-operation observations of the fake-game rig
     # -- a ball ends exactly when balls in play reaches zero or an end is requested.
@@ -697,8 +875,19 @@ def _oracle_one(case, out, bpg, log, last_game, fail0, prefix, device_rig=False)
     cause = False
     cur_op = None
     waiting_player = False
+    stop_requested = False
     for e in log:
         t = e["t"]
+        if t == "op" and e["op"] == "stop":
+            stop_requested = True
+        if t == "idle" and (e.get("ged") or stop_requested):
+            # game_ended has been posted / the game mode was told to stop: machine.game may only stay set while a game mode is
+            # still stopping (the game mode waits for all game modes)
+            if not e.get("gm"):
+                fail("game-not-cleared", "%s and no game mode is active, but machine.game is still set" %
+                     ("game_ended was posted" if e.get("ged") else "the game mode was stopped from outside"))
+            if e.get("ged"):
+                continue
         if t == "ev":
             k = e["k"]
             cur_op = None
@@ -743,19 +932,49 @@ def _oracle_one(case, out, bpg, log, last_game, fail0, prefix, device_rig=False)
 
     # -- after the game has ended no game is active and a new one can start; a game must not hang
     for i, e in enumerate(log):
-        if e["t"] == "fin":
-            if not e["game_none"]:
-                fail("ended-game-active", "machine.game is still set after game_ended")
+        if e["t"] in ("fin", "killed"):
+            how = "game_ended" if e["t"] == "fin" else "the stop of the game mode"
+            if not e["game_none"] or e.get("game_mode_active"):
+                fail("ended-game-active", "machine.game is still set / the game mode is still active after %s" % how)
+            if e.get("gm_active"):
+                fail("game-cleared-before-modes-stopped", "machine.game was cleared after %s although the game mode(s) %s are "
+                                                          "still active" % (how, e["gm_active"]))
             if not e["restart_ok"]:
-                fail("restart-failed", "a new game could not be started after game_ended")
+                fail("restart-failed", "a new game could not be started after %s" % how)
             if i != len(log) - 1:
                 fail("grammar", "events after the end of the game")
         if e["t"] == "idle" and e["ending"] and not any(z["k"] == GSd for z in evs):
             fail("game-hangs", "end_game was requested before the first player was added: the game neither starts nor ends")
-    if evs and evs[-1]["k"] == GEd and out.get("consumed", 0) < len(case["ins"]) and not any(e["t"] == "fin" for e in log):
+    if evs and evs[-1]["k"] == GEd and out.get("consumed", 0) < len(case["ins"]) and not any(e["t"] == "fin" for e in log) \
+            and not any(e["t"] == "idle" and e.get("ged") and e.get("gm") for e in log[-1:]):
         fail("ended-game-active", "game_ended was posted but the game mode did not stop")
     if last_game and out.get("stuck_at_cleanup"):
         fail("game-hangs", "the game could not be ended with end_game() (it hangs)")
+
+
+def check_slam(items, fail):
+    """slam-tilt requests arriving at any point of the lifecycle end the game: after a slam-tilt request that reached a running
+    game, no extra ball is started and no further turn starts once the current turn has ended (a turn that has not begun when
+    the request arrives before the first turn is still played).  items: ("ev", kind, is_extra_ball) | ("slam",) in order."""
+    sl = fin = False
+    last_k = None
+    for it in items:
+        if it[0] == "slam":
+            sl = True
+            if last_k == PTEd:
+                fin = True
+        else:
+            k, x = it[1], it[2]
+            if k == PTWS and fin:
+                fail("slam-tilt-ignored", "a slam tilt was requested during the game, but after the turn had ended another turn "
+                                          "starts (player_turn_will_start) instead of the game ending")
+            if k == BWS and x and sl:
+                fail("slam-tilt-ignored", "a slam tilt was requested during the game, but an extra ball is started afterwards")
+            if k == PTEd and sl:
+                fin = True
+            if k == GWS:
+                sl = fin = False
+            last_k = k
 
 
 def turns_before(log, upto):
@@ -829,25 +1048,37 @@ def describe_game(case):
 # lets the ball in play drain after a while.  No model run: the observable counts depend on device timing that belongs
 # to C04/C05; the game-level clauses are checked by the oracle below.
 DEV_ACTIONS = ["none", "none", "none", "drain", "stray", "endball", "pfhit"]
+TILT_ACTIONS = ["tilt", "slam", "warn", "warn"]
+TILT_W2T = 2          # warnings_to_tilt of the test machine
+TILT_WINDOW = 0.3     # multiple_hit_window (s)
 
 
 def gen_dev(rng, tier, i):
     n = rng.choice([20, 40, 60])
     script = []
+    # the real tilt mode (tilt / slam tilt / tilt warning switches, settle time 2 s, 2 warnings to tilt) is the source of tilt and
+    # slam-tilt requests: in two thirds of the cases they arrive at lifecycle events, while a queue event is held (also while the
+    # ball is already tilted, during the settle time, while the game is ending) and while a ball is live
+    tiltw = rng.choice([0, 1, 2])
+    acts = DEV_ACTIONS + TILT_ACTIONS * tiltw
     for _ in range(n):
         # [action issued by a handler of the lifecycle event, seconds a handler holds the event when it is a queue event]
-        script.append([rng.choice(DEV_ACTIONS), rng.choice([0, 0, 0, 1, 2, 3, 5])])
+        script.append([rng.choice(acts), rng.choice([0, 0, 0, 1, 2, 3, 5])])
+    live_acts = [rng.choice(["none", "none"] + TILT_ACTIONS * tiltw) for _ in range(12)]
     return {"bpg": rng.choice([1, 2, 2, 3]), "script": script, "live": rng.choice([2, 3, 6]),
-            "second_hold_action": rng.choice(["none", "drain", "stray", "stray", "endball"])}
+            "second_hold_action": rng.choice(["none", "drain", "stray", "stray", "endball"] + TILT_ACTIONS * tiltw),
+            "live_acts": live_acts}
 
 
 def _dev_config(bpg):
     sw = {"s_start": {"number": "1", "tags": "start"}, "s_pf": {"number": "2", "tags": "playfield_active"},
-          "s_plunger": {"number": "3"}}
+          "s_plunger": {"number": "3"}, "s_tilt": {"number": "20", "tags": "tilt"},
+          "s_slam": {"number": "21", "tags": "slam_tilt"}, "s_tw": {"number": "22", "tags": "tilt_warning"}}
     for i in range(1, 6):
         sw["s_t%d" % i] = {"number": str(10 + i)}
     return {
         "game": {"balls_per_game": bpg},
+        "modes": ["tilt"],
         "machine": {"min_balls": 1},
         "switches": sw,
         "coils": {"c_trough": {"number": "1"}, "c_plunger": {"number": "2"}},
@@ -863,7 +1094,9 @@ def _dev_config(bpg):
 
 def run_dev(case):
     from rig import GameRig
-    r = GameRig(_dev_config(case["bpg"]), platform="smart_virtual")
+    r = GameRig(_dev_config(case["bpg"]), platform="smart_virtual",
+                modes={"tilt": {"tilt": {"settle_time": "2s", "warnings_to_tilt": TILT_W2T,
+                                         "multiple_hit_window": "%dms" % int(TILT_WINDOW * 1000)}}})
     r.start()
     m = r.machine
     log = []
@@ -884,8 +1117,27 @@ def run_dev(case):
                 return x
         return None
 
+    def snap():
+        g = m.game
+        tm = m.modes["tilt"]
+        lw = tm._last_warning
+        d = {"active": g is not None, "player": bool(g and g.player), "tilted": bool(g and g.tilted),
+             "ending": bool(g and g.ending), "slam": bool(g and g.slam_tilted),
+             "endev": bool(g and g._end_ball_event is not None and g._end_ball_event.is_set()),
+             "warn": int(g.player["tilt_warnings"]) if (g and g.player) else 0,
+             "win_ok": (not lw) or (lw + TILT_WINDOW <= m.clock.get_time())}
+        return d
+
     def act(a, src):
         g = m.game
+        if a in TILT_ACTIONS:
+            # the player nudges the machine / kicks the coin door: the switches of the real tilt mode
+            pre = snap()
+            swn = {"tilt": "s_tilt", "slam": "s_slam", "warn": "s_tw"}[a]
+            m.switch_controller.process_switch(swn, 1, logical=True)
+            m.switch_controller.process_switch(swn, 0, logical=True)
+            log.append({"t": "treq", "a": a, "src": src, "ms": now(), "pre": pre, "post": snap()})
+            return
         if a == "drain":
             # a ball that is on the playfield rolls into the trough
             if st["onpf"] > 0 and free_trough():
@@ -950,7 +1202,9 @@ def run_dev(case):
                 st["stop"] = True
             log.append({"t": "tick", "bip": g.balls_in_play if g else None, "pf": m.playfield.available_balls,
                         "known": m.ball_controller.num_balls_known, "held": st["hold"] is not None,
-                        "last": st["last"], "active": g is not None, "onpf": st["onpf"], "ms": now()})
+                        "last": st["last"], "active": g is not None, "onpf": st["onpf"], "ms": now(),
+                        "tilt_hold": m.modes["tilt"].ball_ending_tilted_queue is not None,
+                        "tilt_collect": m.modes["tilt"]._balls_to_collect, "tilted": bool(g and g.tilted)})
             if g is None and any(e["t"] == "ev" for e in log):
                 break
             if st["hold"] is not None:
@@ -963,7 +1217,14 @@ def run_dev(case):
                 else:
                     st["hold"][1] = secs - 1
                 continue
+            if m.modes["tilt"].ball_ending_tilted_queue is not None and not st["stop"] and case.get("live_acts"):
+                # further nudges / kicks while the tilted ball rolls home and while the settle time runs
+                st["la"] = st.get("la", 0) + 1
+                act(case["live_acts"][st["la"] % len(case["live_acts"])], "tilt-hold")
             # the ball in play drains after a while
+            if st["last"] == BSd and st["onpf"] > 0 and not st["stop"] and case.get("live_acts"):
+                st["la"] = st.get("la", 0) + 1
+                act(case["live_acts"][st["la"] % len(case["live_acts"])], "live")
             if st["last"] == BSd and st["onpf"] > 0:
                 live_for += 1
                 if live_for >= (2 if st["stop"] else case["live"]):
@@ -999,7 +1260,9 @@ def oracle_dev(case, out):
         return fails
     log = out["log"]
     # grammar, turn order, event arguments: the same predicates as for the fake-game suite
-    glog = [e for e in log if e["t"] == "ev"]
+    # (a slam-tilt request of the real tilt mode that reaches a running game counts as the operation "slam")
+    glog = [e if e["t"] == "ev" else {"t": "op", "op": "slam"} for e in log
+            if e["t"] == "ev" or (e["t"] == "treq" and e["a"] == "slam" and e["pre"]["active"])]
     _oracle_one({"nbk": 99}, {}, case["bpg"], glog, False, fail, "", device_rig=True)
     phase, cause, stuck, zero = "none", False, 0, 0
     for e in log:
@@ -1022,6 +1285,16 @@ def oracle_dev(case, out):
                 phase = "none"
         elif t == "act" and e["a"] == "endball" and phase != "none":
             cause = True
+        elif t == "treq" and phase != "none":
+            # a tilt (switch, slam tilt, or the last tilt warning) is a request to end the ball, unless the ball is already
+            # tilted or the game is ending
+            p = e["pre"]
+            if p["active"] and not p["tilted"] and not p["ending"]:
+                if e["a"] in ("tilt", "slam") or (e["a"] == "warn" and p["player"] and p["win_ok"] and p["warn"] + 1 >= TILT_W2T):
+                    cause = True
+            if e["a"] == "slam" and p["active"] and not e["post"]["slam"]:
+                fail("slam-tilt-ignored", "a slam tilt was requested while a game is running (tilted=%s ending=%s) but the game's "
+                                          "slam_tilted flag is not set" % (p["tilted"], p["ending"]))
         elif t == "drainev" and phase == "live" and e["bip"] == 0:
             cause = True
         elif t == "tick":
@@ -1037,12 +1310,34 @@ def oracle_dev(case, out):
                 if zero >= 2:
                     fail("ball-not-ended", "balls in play reached zero or an end was requested, but the ball did not end")
     ticks = [e for e in log if e["t"] == "tick"]
-    if ticks and ticks[-1]["active"]:
+    if ticks and ticks[-1]["active"] and not ticks[-1].get("tilt_hold"):
+        # (a ball_ending that the tilt mode holds for ever is a handler delay that never ends: outside this property)
         fail("game-not-ended", "the game did not reach game_ended although every ball was drained and nothing was held for "
                                "160 s (last lifecycle event: %s)" % (KINDS[ticks[-1]["last"]] if ticks[-1]["last"] is not None else None))
     if not any(e["t"] == "ev" for e in log):
         fail("game-did-not-start", "no lifecycle event was posted after the start button")
     return fails
+
+
+HDR_DEV = "From C06 Require Import Model Tilt.\nDefinition run := tilt_run.\n"
+
+
+def _tg(d):
+    return [1 if d["active"] else 0, 1 if d["player"] else 0, 1 if d["tilted"] else 0, 1 if d["ending"] else 0,
+            1 if d["slam"] else 0, 1 if d["endev"] else 0, d["warn"]]
+
+
+def coq_dev(case, out):
+    """request-level correspondence for the tilt mode: every tilt / slam tilt / tilt warning switch hit of the game, with the
+    state of the game object before it, is given to the model functions of Tilt.v; expected = the state right after it"""
+    if out.get("err"):
+        return None
+    reqs = [e for e in out["log"] if e["t"] == "treq"]
+    ins = coqlist("(%s, [%s])" % (zlit({"tilt": 0, "slam": 1, "warn": 2}[e["a"]]),
+                                  ";".join(zlit(x) for x in _tg(e["pre"]) + [TILT_W2T, 1 if e["pre"]["win_ok"] else 0]))
+                  for e in reqs)
+    exp = coqlist("[" + ";".join(zlit(x) for x in _tg(e["post"])) + "]" for e in reqs)
+    return "(%s, %s)" % (ins, exp)
 
 
 def shrink_dev(case):
@@ -1056,6 +1351,12 @@ def shrink_dev(case):
             yield dict(case, script=sc[:i] + [["none", 0]] + sc[i + 1:])
     if case["second_hold_action"] != "none":
         yield dict(case, second_hold_action="none")
+    la = case.get("live_acts") or []
+    if any(a != "none" for a in la):
+        yield dict(case, live_acts=["none"] * len(la))
+        for i in range(len(la)):
+            if la[i] != "none":
+                yield dict(case, live_acts=la[:i] + ["none"] + la[i + 1:])
     if case["bpg"] > 1:
         yield dict(case, bpg=case["bpg"] - 1)
 
@@ -1068,7 +1369,7 @@ def nontrivial_dev(case, out):
 SUITES = [
     Suite("game", gen_game, run_game, HDR, coq_game, oracle_game, shrink_game, nontrivial_game,
           {"quick": 600, "thorough": 20000}, describe=describe_game, shard=60, case_timeout=120),
-    Suite("devices", gen_dev, run_dev, None, None, oracle_dev, shrink_dev, nontrivial_dev,
+    Suite("devices", gen_dev, run_dev, HDR_DEV, coq_dev, oracle_dev, shrink_dev, nontrivial_dev,
           {"quick": 40, "thorough": 1500}, describe=lambda c: "bpg=%d" % c["bpg"], case_timeout=120),
 ]
 
@@ -1079,13 +1380,23 @@ LEVEL_TEXT = ("Machine-checked proof (Coq) about a program-counter model of the 
               "of the last player on the last ball unless end_game / slam tilt was requested; a ball ends only after an end request or after "
               "balls in play went from > 0 to 0 and a live ball with such a cause does not go on; extra balls played never exceed and at the "
               "end of a turn equal the extra balls awarded; balls in play stays within [0, num_balls_known]; the coroutine's end coincides "
-              "with machine.game being cleared; a further game on the same mode object starts from the state of a first game.  The unfixed "
+              "with machine.game being cleared; a further game on the same mode object starts from the state of a first game.  Around the "
+              "coroutine (Outer.v): when the game mode is stopped from outside at any quiescent suspension point the stopped game posts "
+              "nothing more whatever arrives, machine.game is cleared only when every game mode has stopped and no stop is pending, the "
+              "state left behind re-initialises to the initial state, and the trace up to the stop is a prefix of a coroutine trace (so the "
+              "monitor theorems hold up to the stop).  Tilt mode (Tilt.v): a slam-tilt request that reaches a game always registers "
+              "(tilted, ending, between balls) and requests the ball end unless tilted / ending; after a slam-tilt request no extra ball and, "
+              "once the turn has ended, no further turn starts (monitor over every trace).  The unfixed "
               "code of three earlier findings is refuted by vm_compute witnesses.  The model is tied to the working tree by running real "
               "games on the same inputs on every run.")
 LEVEL_NOTE = ("Trusted: Coq kernel + vm_compute; no axioms.  Model hand-written; the correspondence run compares whole traces of "
               "real games (MpfFakeGameTestCase rig, playfield count kept as that test case does) with the model.  The event manager and asyncio "
-              "are not modelled beyond the batch rule stated in Model.v; tilt/bonus/high-score modes are not loaded; Mode.stop() is not "
-              "modelled.  The suite on real ball devices (smart_virtual) is an oracle-only supplement: progress, ball-end causes, bounds, grammar.")
-TECHNIQUE = ("Coq proof over hand-written executable pc-machine model (six trace monitors + state invariants) + differential correspondence "
-             "(vm_compute) + direct lifecycle / progress oracle")
+              "are not modelled beyond the batch rule stated in Model.v (starts / stops of modes complete at the end of the batch); bonus/high-score "
+              "modes are not loaded.  The suite on real ball devices (smart_virtual) checks the game-level clauses by oracle only (progress, "
+              "ball-end causes, bounds, grammar, slam tilt ends the game) and ties the tilt mode's request functions to Tilt.v request by request; "
+              "that a registered slam tilt lets no further turn / extra ball start is the theorem slam_tilt_ends_game about the coroutine model and "
+              "an oracle clause on both suites.")
+TECHNIQUE = ("Coq proof over hand-written executable pc-machine model (seven trace monitors + state invariants), a layered model of the game "
+             "mode's stop procedure (invariant, prefix refinement) and a function model of the tilt requests + differential correspondence "
+             "(vm_compute; whole traces and request level) + direct lifecycle / progress oracle")
 DESIGN_REF = "DESIGN.md section 3, C06"
